@@ -271,27 +271,7 @@ print("HOLDS calls=", len(calls), "desync=", desync)
 '''
 
 
-def shared_lines(S):
-    """(file basename, line) of every scheduling point of every thread"""
-    import os
-    out = set()
-    for th in S.threads:
-        for i in S.cut_points(th):
-            if i < len(th.ins) and th.ins[i].line:
-                out.add((os.path.basename(th.ins[i].file), th.ins[i].line))
-    return sorted(out)
-
-
-def grants(trace):
-    """one grant per macro-step that starts on a new (thread, line)"""
-    import os
-    out, last = [], {}
-    for e in trace:
-        key = (os.path.basename(e["file"]), e["line"])
-        if e["line"] and last.get(e["thread"]) != key:
-            out.append(e["thread"])
-        last[e["thread"]] = key
-    return out
+from ..pysym.bmc import grants, shared_lines  # noqa: E402
 
 
 # ------------------------------------------------------------------ Future: sequential kernel in PySym
